@@ -15,7 +15,8 @@
 #endif
 #define VC_ANB 4
 extern unsigned g_ec;                         /* block-function calls so far */
-extern const void *g_erk[VC_ANB], *g_ein[VC_ANB], *g_eout[VC_ANB]; extern int g_enr[VC_ANB];
+extern size_t g_erk_o[VC_ANB], g_erk_f[VC_ANB], g_ein_o[VC_ANB], g_ein_f[VC_ANB], g_eout_o[VC_ANB], g_eout_f[VC_ANB];   /* key schedule, input and output buffer of call k: (object, offset) */
+extern int g_enr[VC_ANB];
 extern uint8_t g_ei[VC_ANB][16];              /* the 16 bytes call k was applied to */
 extern uint8_t g_eo[VC_ANB][16];              /* the 16 bytes call k returns */
 
@@ -24,12 +25,15 @@ extern uint8_t g_eo[VC_ANB][16];              /* the 16 bytes call k returns */
 #include "vc_spec_push.h"
 #define VC_BLK_IN(j)   (g_ei[__CPROVER_old(g_ec) % VC_ANB][j] == src[j])
 #define VC_BLK_OUT(j)  (dst[j] == g_eo[__CPROVER_old(g_ec) % VC_ANB][j])
+/* (buffers are recorded as (object, offset) pairs of integers: a transcript of POINTERS with an element-wise assigns target g_ein[g_ec] made the
+   replaced call unsatisfiable for pointers with a non-zero offset - measured on cbmc 6.11, the unit was vacuous for more than one block) */
+#define VC_PTR_IS(o, f, k, p)  ((o)[k] == __CPROVER_POINTER_OBJECT(p) && (f)[k] == __CPROVER_POINTER_OFFSET(p))
 #define VC_BLOCK_FN(name) \
 void name(const u32 *rk, int Nr, const u8 *src, u8 *dst) \
 __CPROVER_requires(g_ec < VC_ANB && __CPROVER_is_fresh(src, 16) && __CPROVER_is_fresh(dst, 16)) \
-VC_ASSIGNS(__CPROVER_object_upto(dst, 16), g_ec, g_erk[g_ec], g_ein[g_ec], g_eout[g_ec], g_enr[g_ec], __CPROVER_object_upto(g_ei[g_ec], 16)) \
-__CPROVER_ensures(g_ec == __CPROVER_old(g_ec) + 1 && g_erk[__CPROVER_old(g_ec) % VC_ANB] == (const void *)rk && g_enr[__CPROVER_old(g_ec) % VC_ANB] == Nr && \
-	g_ein[__CPROVER_old(g_ec) % VC_ANB] == (const void *)src && g_eout[__CPROVER_old(g_ec) % VC_ANB] == (const void *)dst) \
+VC_ASSIGNS(__CPROVER_object_upto(dst, 16), g_ec, g_erk_o[g_ec], g_erk_f[g_ec], g_ein_o[g_ec], g_ein_f[g_ec], g_eout_o[g_ec], g_eout_f[g_ec], g_enr[g_ec], __CPROVER_object_upto(g_ei[g_ec], 16)) \
+__CPROVER_ensures(g_ec == __CPROVER_old(g_ec) + 1 && g_enr[__CPROVER_old(g_ec) % VC_ANB] == Nr && VC_PTR_IS(g_erk_o, g_erk_f, __CPROVER_old(g_ec) % VC_ANB, rk) && \
+	VC_PTR_IS(g_ein_o, g_ein_f, __CPROVER_old(g_ec) % VC_ANB, src) && VC_PTR_IS(g_eout_o, g_eout_f, __CPROVER_old(g_ec) % VC_ANB, dst)) \
 __CPROVER_ensures(VC_ALL16(VC_BLK_IN) && VC_ALL16(VC_BLK_OUT))
 VC_BLOCK_FN(rijndaelEncrypt_a);
 VC_BLOCK_FN(rijndaelDecrypt_a);
@@ -44,14 +48,14 @@ VC_BLOCK_FN(rijndaelDecrypt_a);
 #define VC_ECALL1(j)   VC_ECALL_OK(1, j)
 #define VC_ECALL2(j)   VC_ECALL_OK(2, j)
 #define VC_ECALL3(j)   VC_ECALL_OK(3, j)
-#define VC_EWHERE(k)   (g_erk[k] == (const void *)key->rk && g_enr[k] == key->Nr && g_eout[k] == (const void *)(outBuffer + 16 * (k)))
+#define VC_EWHERE(k)   (VC_PTR_IS(g_erk_o, g_erk_f, k, key->rk) && g_enr[k] == key->Nr && VC_PTR_IS(g_eout_o, g_eout_f, k, outBuffer + 16 * (k)))
 #define VC_EACTIVE     (key->direction != DIR_DECRYPT && inputOctets > 0)
 int padEncrypt(cipherInstance *cipher, keyInstance *key, BYTE *input, int inputOctets, BYTE *outBuffer)
 __CPROVER_requires(inputOctets <= VC_AES_MAXIN && g_ec == 0)
 __CPROVER_requires(__CPROVER_is_fresh(cipher, sizeof(cipherInstance)) && __CPROVER_is_fresh(key, sizeof(keyInstance)) && cipher->mode == MODE_CBC)
 __CPROVER_requires(__CPROVER_is_fresh(input, inputOctets > 0 ? (size_t)inputOctets : 0) && __CPROVER_is_fresh(outBuffer, inputOctets > 0 ? 16 * (size_t)VC_ENB : 0))
 __CPROVER_assigns(VC_EACTIVE: __CPROVER_object_upto(outBuffer, 16 * (size_t)VC_ENB))
-VC_ASSIGNS(g_ec, __CPROVER_object_whole(g_erk), __CPROVER_object_whole(g_ein), __CPROVER_object_whole(g_eout), __CPROVER_object_whole(g_enr), __CPROVER_object_whole(g_ei))
+VC_ASSIGNS(g_ec, __CPROVER_object_whole(g_erk_o), __CPROVER_object_whole(g_erk_f), __CPROVER_object_whole(g_ein_o), __CPROVER_object_whole(g_ein_f), __CPROVER_object_whole(g_eout_o), __CPROVER_object_whole(g_eout_f), __CPROVER_object_whole(g_enr), __CPROVER_object_whole(g_ei))
 /* a decryption key is refused, an empty input is "nothing to do" (return 0): no block call, nothing written */
 __CPROVER_ensures(key->direction == DIR_DECRYPT ==> (__CPROVER_return_value == BAD_CIPHER_STATE && g_ec == 0))
 __CPROVER_ensures((key->direction != DIR_DECRYPT && inputOctets <= 0) ==> (__CPROVER_return_value == 0 && g_ec == 0))
@@ -80,7 +84,7 @@ _Static_assert(VC_AES_MAXIN / 16 + 1 <= VC_ANB, "ghost transcript too small");
 #define VC_DCALL1(j)   VC_DCALL_OK(1, j)
 #define VC_DCALL2(j)   VC_DCALL_OK(2, j)
 #define VC_DCALL3(j)   VC_DCALL_OK(3, j)
-#define VC_DWHERE(k)   (g_erk[k] == (const void *)key->rk && g_enr[k] == key->Nr && g_ein[k] == (const void *)(input + 16 * (k)))
+#define VC_DWHERE(k)   (VC_PTR_IS(g_erk_o, g_erk_f, k, key->rk) && g_enr[k] == key->Nr && VC_PTR_IS(g_ein_o, g_ein_f, k, input + 16 * (k)))
 #ifndef VC_AES_MAXCT
 #define VC_AES_MAXCT 50          /* up to 3 blocks; every length in between is rejected */
 #endif
@@ -90,7 +94,7 @@ __CPROVER_requires(__CPROVER_is_fresh(cipher, sizeof(cipherInstance)) && __CPROV
 /* the plaintext buffer has room for len(C) - 1 bytes: the longest plaintext a valid ciphertext of that length carries */
 __CPROVER_requires(__CPROVER_is_fresh(input, inputOctets > 0 ? (size_t)inputOctets : 0) && __CPROVER_is_fresh(outBuffer, inputOctets > 0 ? (size_t)inputOctets - 1 : 0))
 __CPROVER_assigns(VC_DSHAPE: __CPROVER_object_upto(outBuffer, (size_t)inputOctets - 1), __CPROVER_object_upto(cipher->IV, 16))
-VC_ASSIGNS(g_ec, __CPROVER_object_whole(g_erk), __CPROVER_object_whole(g_ein), __CPROVER_object_whole(g_eout), __CPROVER_object_whole(g_enr), __CPROVER_object_whole(g_ei))
+VC_ASSIGNS(g_ec, __CPROVER_object_whole(g_erk_o), __CPROVER_object_whole(g_erk_f), __CPROVER_object_whole(g_ein_o), __CPROVER_object_whole(g_ein_f), __CPROVER_object_whole(g_eout_o), __CPROVER_object_whole(g_eout_f), __CPROVER_object_whole(g_enr), __CPROVER_object_whole(g_ei))
 /* an encryption key is refused, an empty input is "nothing to do" (return 0), a length that is not a multiple of the block is rejected: no block call */
 __CPROVER_ensures(key->direction == DIR_ENCRYPT ==> (__CPROVER_return_value == BAD_CIPHER_STATE && g_ec == 0))
 __CPROVER_ensures((key->direction != DIR_ENCRYPT && inputOctets <= 0) ==> (__CPROVER_return_value == 0 && g_ec == 0))
